@@ -32,6 +32,10 @@ VERIF = os.path.dirname(os.path.dirname(os.path.abspath(__file__)))
 REPO = os.environ.get("VERIF_REPO", "/repo")
 COQ = os.path.join(VERIF, "coq")
 NCPU = min(16, os.cpu_count() or 4)
+# the second pass under python -O runs concurrently with the main pass: each of the two evaluates its Coq shards with half
+# of the workers, so that the number (and memory) of concurrent coqc processes stays what it was with one pass
+if not os.environ.get("VERIF_NO_OPT_PASS"):
+    NCPU = max(2, NCPU // 2)
 COQ_FLAGS = ["-Q", os.path.join(COQ, "theories"), "Artap", "-w", "-notation-overridden,-deprecated,-inexact-float"]
 
 FORBIDDEN = re.compile(
@@ -388,7 +392,7 @@ def targets_of(mod):
     return targets
 
 
-def build(jobs=NCPU, timeout=3600, only=None, keep_going=False):
+def build(jobs=min(16, os.cpu_count() or 4), timeout=3600, only=None, keep_going=False):
     """Full .vo build through coq_makefile (no -vos).  Serialised by a lock so that
     concurrent checks do not run two makes in the same directory."""
     lock = open(os.path.join(COQ, ".build.lock"), "w")
